@@ -324,6 +324,19 @@ func runC16(o *out, thorough bool, r *rng, _ []string) map[string]interface{} {
 		}
 	}
 	emitParsed(o, dict, "host-dictionary")
+	// the string and character literals of the library's source as hosts, labels, bracketed hosts, query values
+	var lits [][]byte
+	for k, sv := range litStrs {
+		if k >= 250 || len(sv) > 40 {
+			continue
+		}
+		t := string(sv)
+		for _, u := range []string{"stun:" + t, "turn:" + t + ":3478", "stun:" + t + "a.example", "stuns:[" + t + "]", "turns:[" + t + "6]:1", "stun:" + t + "-3y.example:3478",
+			"turn:h?transport=" + t, "turn:h?" + t + "=udp", "stun:h:" + t} {
+			lits = append(lits, []byte(u))
+		}
+	}
+	emitParsed(o, lits, "source-literals")
 	// grammar-mutated, non-ASCII, control characters, very long inputs
 	var rnd [][]byte
 	n := 3000
